@@ -5,7 +5,7 @@ From PlzV Require Import Base.Harness Model.Sched Proof.Sched_Base Proof.Sched_I
 From Coq Require Import Lia Arith.
 
 (* field projections through the setters, without unfolding anything else *)
-Ltac sproj := cbn [ts fin ex pk asy initq ptasks parsers semi sendq actq taken building finishing completing numPending
+Ltac sproj := rewrite ?sbf_if; cbn [ts fin ex pk asy initq ptasks parsers semi sendq actq taken building finishing completing numPending
   numActive initdone closed exited failed stopreq cycreported trace nfwd
   set_ts set_fin set_ex set_pk set_asy set_initq set_ptasks set_parsers set_semi set_sendq set_actq set_taken set_building
   set_finishing set_completing set_numPending set_numActive set_initdone set_closed set_exited set_failed set_stopreq
